@@ -650,12 +650,19 @@ def e_simulation(rng, computed, variant=None):
     want_misfit = computed and (rng.random() < 0.5 if variant is None else variant % 2 == 0)
     survey, sr = e_sim_survey(rng, force_noise=want_misfit)
     what = _pick(rng, ['computed', 'results', 'all', 'plain'], variant)
-    sim = emg3d.Simulation(survey, model, gridding='same', max_workers=1, verb=0,
+    # gridding: model grid itself, a provided computational mesh, or provided meshes per source/frequency
+    gridding = _pick(rng, ['same', 'input', 'dict'], variant)
+    gkw = {}
+    if gridding != 'same':
+        g2 = emg3d.TensorMesh([np.array([rng.randint(8, 40) / 4 for _ in range(4)]) for _ in range(3)], (0, 0, 0))
+        gkw['gridding_opts'] = g2 if gridding == 'input' else \
+            {s: {f: g2 for f in survey.frequencies} for s in survey.sources}
+    sim = emg3d.Simulation(survey, model, gridding=gridding, max_workers=1, verb=0,
                            name=rng.choice([None, 'sim-1']), info=rng.choice([None, 'info']),
                            solver_opts={'maxit': 1, 'sslsolver': False, 'semicoarsening': False,
                                         'linerelaxation': False, 'tol': 1e-2},
                            receiver_interpolation=rng.choice(['cubic', 'linear']),
-                           tqdm_opts=False if rng.random() < 0.5 else {'disable': True})
+                           tqdm_opts=False if rng.random() < 0.5 else {'disable': True}, **gkw)
     if computed:
         with warnings.catch_warnings(), contextlib.redirect_stdout(_io.StringIO()):
             warnings.simplefilter('ignore')
@@ -665,7 +672,7 @@ def e_simulation(rng, computed, variant=None):
                     _ = sim.misfit
                 except Exception:
                     pass
-    return sim, dict(model=mr, survey=sr, what=what, computed=computed, misfit=want_misfit)
+    return sim, dict(model=mr, survey=sr, what=what, computed=computed, misfit=want_misfit, gridding=gridding)
 
 
 # ---- comparison of two objects through their PUBLIC attributes (deliberately not
@@ -813,7 +820,7 @@ def obj_diff(orig, back, what=None):
     if '__eq__' in type(orig).__dict__ or any('__eq__' in c.__dict__ for c in type(orig).__mro__[1:-1]):
         try:
             if not (orig == back):
-                return "__eq__ is False"
+                return f"__eq__ is False ({tree_diff(tree_of(orig, what), tree_of(back, what))})"
         except Exception as e:       # comparison itself must work
             return f"__eq__ raised {type(e).__name__}: {e}"
     if type(orig).__name__ == 'Simulation' and getattr(orig, '_misfit', None) is not None \
@@ -901,7 +908,7 @@ def e2e_case(rng, kind, tmp, tag, convert_pairs=None, variant=None):
             n += 1
             if bad:
                 fails.append({'kind': kind, 'how': f, 'recipe': recipe, 'diff': bad[0],
-                              'signature': signature_of(kind, f, 'could not de-serialize')})
+                              'signature': signature_of(kind, f, 'could not de-serialize: ' + bad[0].split(': ', 2)[-1][:50])})
             else:
                 check(out, f)
         except Exception as e:
@@ -923,7 +930,7 @@ def e2e_case(rng, kind, tmp, tag, convert_pairs=None, variant=None):
                 n += 1
                 if bad:
                     fails.append({'kind': kind, 'how': f"{f}->{g}", 'recipe': recipe, 'diff': bad[0],
-                                  'signature': signature_of(kind, f"{f}->{g}", 'could not de-serialize')})
+                                  'signature': signature_of(kind, f"{f}->{g}", 'could not de-serialize: ' + bad[0].split(': ', 2)[-1][:50])})
                 else:
                     check(out, f"{f}->{g}")
             except Exception as e:
@@ -1254,7 +1261,7 @@ def compare_cases(cases, res, prefix, per, dis, hist):
 # how many forced variants cover the parameter grid of each class
 VARIANTS = {'TensorMesh': 1, 'Model': 12, 'Field': 6, 'TxElectricPoint': 2, 'TxMagneticPoint': 2,
             'TxElectricDipole': 6, 'TxMagneticDipole': 6, 'TxElectricWire': 2, 'RxElectricPoint': 2,
-            'RxMagneticPoint': 2, 'Survey': 8, 'Simulation': 4, 'SimulationComputed': 4, 'Nested': 1}
+            'RxMagneticPoint': 2, 'Survey': 8, 'Simulation': 12, 'SimulationComputed': 6, 'Nested': 1}
 
 
 def e2e_stream(rng, kinds_n, tmp, tag, convert_all=True):
@@ -1299,6 +1306,9 @@ def correspondence(ctx):
         # oracle-free sanity stream: objects of every registered class through real files
         kinds_n = [(k, 2 if ctx.thorough else 0) for k in E2E_KINDS]
         fails, trips, per_kind = e2e_stream(rng, kinds_n, tmp, 'e', convert_all=ctx.thorough)
+        # histories on the same object: serialise; mutate through the public API; save again; load
+        hfails, htrips = history_stream(rng, tmp, 'h', reps=2 if ctx.thorough else 1)
+        trips += htrips
     seen = set()
     for c in cases:
         f = c['feat']
@@ -1311,6 +1321,17 @@ def correspondence(ctx):
         if f['kinds'] - {'int', 'float', 'str', 'bool'} or f['mal']:
             seen.add(c['impl']['ser'])
     hist['e2e_round_trips_per_class'] = per_kind
+    hist['history_loads'] = htrips
+    seen_h = set()
+    for x in hfails:
+        if x['signature'] in seen_h:
+            continue
+        seen_h.add(x['signature'])
+        dis.append({'what': 'history on one object: what is loaded differs from the CURRENT object '
+                            '(implementation-side, no model)',
+                    'signature': x['signature'],
+                    'case': {k: x[k] for k in ('kind', 'history', 'recipe', 'case_seed', 'first', 'mut_index', 'variant')},
+                    'impl': x['diff'], 'model': 'n/a (required: load returns the current state)'})
     for x in fails:
         dis.append({'what': 'end-to-end round trip of a class instance fails (implementation-side, no model)',
                     'signature': x['signature'],
@@ -1426,6 +1447,7 @@ def search(ctx, broken):
                 hits.append(h)
                 break
         fails, trips, per_kind = e2e_stream(rng, [(k, n_obj) for k in E2E_KINDS], tmp, 's')
+        hfails, htrips = history_stream(rng, tmp, 'sh', reps=3 if ctx.thorough else 1)
     seen = set()
     for x in fails:
         if x['signature'] in seen:
@@ -1434,8 +1456,13 @@ def search(ctx, broken):
         hits.append({'signature': x['signature'], 'kind': x['kind'], 'how': x['how'], 'recipe': x['recipe'],
                      'case_seed': x['case_seed'], 'variant': x['variant'], 'observed': x['diff'][:800],
                      'required': 'load returns an equal object (class __eq__, dtype/shape/values, NaN-aware)'})
+    for x in hfails[:1] + [y for y in hfails[1:] if y['kind'] != hfails[0]['kind']][:3]:
+        hits.append({'signature': x['signature'], 'kind': 'history', 'container': x['kind'],
+                     'history': x['history'], 'recipe': x['recipe'], 'case_seed': x['case_seed'],
+                     'first': x['first'], 'mut_index': x['mut_index'], 'variant': x['variant'],
+                     'observed': x['diff'], 'required': 'what is saved and loaded is the CURRENT state of the object'})
     ctx.notes.append(f"searcher: {n_dict} guard-respecting dicts x 3 formats (+1 conversion each), "
-                     f"{trips} class round trips {per_kind}")
+                     f"{trips} class round trips {per_kind}, {htrips} loads in save/mutate/save/load histories")
     return hits
 
 
@@ -1445,7 +1472,190 @@ def replay(ctx, payload):
     if not fi or 'case_seed' not in fi:
         return False
     with tempfile.TemporaryDirectory(prefix='c17r_') as tmp:
+        if fi.get('kind') == 'history':
+            f, _ = history_case(_random.Random(fi['case_seed']), fi['container'], fi['first'], fi['mut_index'],
+                                tmp, 'r', fi['variant'])
+            return f is None
         if fi.get('kind') == 'dict':
             return dict_rt_case(_random.Random(fi['case_seed']), tmp, 'r', fi.get('maxdepth', 4)) is None
         fails, _ = e2e_case(_random.Random(fi['case_seed']), fi['kind'], tmp, 'r', None, fi.get('variant'))
         return not fails
+
+
+# ======================================================================
+# Histories on the SAME object: serialise once, mutate through the public
+# API, serialise again, load -> must equal the CURRENT object
+# ======================================================================
+H_KINDS = ['TensorMesh', 'Model', 'Field', 'Survey', 'Simulation', 'Nested']
+H_FIRST = ['save-h5', 'save-npz', 'save-json', 'to_dict', 'copy']
+
+
+def _grid_of(obj):
+    name = type(obj).__name__
+    if name == 'TensorMesh':
+        return obj
+    if name in ('Model', 'Field'):
+        return obj.grid
+    if name == 'Simulation':
+        return obj.model.grid
+    return None
+
+
+def h_mutations(obj):
+    """Names of the public-API mutations applicable to obj."""
+    name = type(obj).__name__
+    muts = []
+    if _grid_of(obj) is not None:
+        muts += ['grid.origin=', 'grid.h[0][0]*=2']
+    if name == 'Model':
+        muts += ['property_x=', 'property_x[...]', 'mu_r/epsilon_r[...]']
+    if name == 'Field':
+        muts += ['field[:]', 'fx[...]']
+    if name == 'Survey':
+        muts += ['data.observed[...]', 'noise_floor=', 'standard_deviation=', 'data[new]=']
+    if name == 'Simulation':
+        muts += ['model.property_x[...]', 'survey.data.observed[...]', 'name=']
+    return muts
+
+
+def h_mutate(obj, mut, rng):
+    name = type(obj).__name__
+    g = _grid_of(obj)
+    if mut == 'grid.origin=':
+        g.origin = np.asarray(g.origin) + np.array([rng.randint(1, 40) * 250.0, -1000.0, 0.25])
+    elif mut == 'grid.h[0][0]*=2':
+        g.h[0][0] *= 2.0
+    elif mut == 'property_x=':
+        obj.property_x = np.asarray(obj.property_x) * 2.0 + 1.0
+    elif mut in ('property_x[...]', 'model.property_x[...]'):
+        m = obj if name == 'Model' else obj.model
+        m.property_x[...] = np.asarray(m.property_x) * 4.0 + 0.5
+    elif mut == 'mu_r/epsilon_r[...]':
+        for a in (obj.mu_r, obj.epsilon_r, obj.property_y, obj.property_z):
+            if a is not None:
+                a[...] = np.asarray(a) * 2.0 + 0.25
+    elif mut == 'field[:]':
+        obj.field[:] = np.asarray(obj.field) * 2.0 + 1.0
+    elif mut == 'fx[...]':
+        obj.fx[...] = np.asarray(obj.fx) * 0.5 - 3.0
+    elif mut in ('data.observed[...]', 'survey.data.observed[...]'):
+        s = obj if name == 'Survey' else obj.survey
+        s.data.observed.data[...] = np.arange(s.data.observed.size).reshape(s.shape) * (1 + 0.5j) + 7
+    elif mut == 'noise_floor=':
+        obj.noise_floor = 2.0 ** -rng.randint(10, 30)
+    elif mut == 'standard_deviation=':
+        obj.standard_deviation = np.arange(1, np.prod(obj.shape) + 1).reshape(obj.shape) / 1024.0
+    elif mut == 'data[new]=':
+        obj.data['h_new'] = obj.data.observed * 2 + 1
+    elif mut == 'name=':
+        obj.name = 'renamed'
+    else:
+        raise ValueError(mut)
+
+
+def h_make(rng, kind, variant):
+    if kind == 'Survey':
+        return e_survey(rng, variant=variant % 6)        # never the receiver-free variant
+    if kind == 'Simulation':
+        return e_simulation(rng, False, variant)
+    if kind == 'Nested':
+        g = e_grid(rng)
+        m, _ = e_model(rng, g, variant=variant)
+        f, _ = e_field(rng, g, variant=variant)
+        return {'sub': {'model': m, 'deep': {'field': f}}, 'grid': g}, dict(nested=True)
+    return e_make(rng, kind, variant)
+
+
+def history_case(rng, kind, first, mut_index, tmp, tag, variant=0):
+    """One history.  Returns (failure dict or None, number of loads)."""
+    from emg3d import io
+    obj, recipe = h_make(rng, kind, variant)
+    what = recipe.get('what') if isinstance(recipe, dict) else None
+    targets = [obj] if not isinstance(obj, dict) else [obj['sub']['model'], obj['sub']['deep']['field'], obj['grid']]
+    target = targets[mut_index % len(targets)]
+    muts = h_mutations(target)
+    mut = muts[mut_index % len(muts)]
+    n = 0
+
+    def save(p):
+        if kind == 'Simulation':
+            obj.to_file(p, what=what, name='o', verb=0)
+        elif isinstance(obj, dict):
+            io.save(p, verb=0, **obj)
+        else:
+            io.save(p, verb=0, o=obj)
+
+    def fail(how, diff):
+        return {'kind': kind, 'history': [first, f"mutate {type(target).__name__}: {mut}", how],
+                'recipe': repr(recipe)[:500], 'diff': str(diff)[:600],
+                'signature': f"C17: history [{first}; {mut}; {how}] on {kind}: {str(diff).split(':')[0][:60]}"}
+    # 1. serialise once
+    try:
+        with warnings.catch_warnings(), contextlib.redirect_stdout(_io.StringIO()):
+            warnings.simplefilter('ignore')
+            for o in ([obj] if not isinstance(obj, dict) else targets):
+                if first.startswith('save-'):
+                    pass
+                elif first == 'to_dict':
+                    o.to_dict()
+                else:
+                    o.copy()
+            if first.startswith('save-'):
+                save(os.path.join(tmp, f"{tag}_0.{first[5:]}"))
+        # 2. mutate through the public API
+        h_mutate(target, mut, rng)
+    except Exception as e:          # mutation not available on this object: not a round-trip matter
+        return None, 0
+    # 3. serialise again in every format, load, compare with the CURRENT object
+    for f in FMTS:
+        p = os.path.join(tmp, f"{tag}_1.{f}")
+        try:
+            _quiet(lambda: save(p))
+            with warnings.catch_warnings(record=True) as w:
+                warnings.simplefilter('always')
+                with contextlib.redirect_stdout(_io.StringIO()):
+                    out = io.load(p, verb=0)
+            n += 1
+            bad = [str(x.message) for x in w if 'Could not de-serialize' in str(x.message)]
+            if bad:
+                return fail(f"save+load {f}", bad[0]), n
+            if isinstance(obj, dict):
+                for k in META:
+                    out.pop(k, None)
+                d = tree_diff(tree_of(obj), tree_of(out), root_unordered=(f == 'h5'))
+            else:
+                d = obj_diff(obj, out['o'], what)
+            if d:
+                return fail(f"save+load {f}", d), n
+        except Exception as e:
+            return fail(f"save+load {f}", f"{type(e).__name__}: {e}"), n
+    # copy() and to_dict()/from_dict() of the current object
+    if not isinstance(obj, dict):
+        try:
+            c = _quiet(obj.copy)
+            n += 1
+            d = obj_diff(obj, c, 'computed' if kind == 'Simulation' else None)
+            if d:
+                return fail('copy()', d), n
+        except Exception as e:
+            return fail('copy()', f"{type(e).__name__}: {e}"), n
+    return None, n
+
+
+def history_stream(rng, tmp, tag, reps=1):
+    """Every container kind x every way of serialising first x every applicable mutation."""
+    import random as _random
+    fails, trips = [], 0
+    for kind in H_KINDS:
+        nm = {'TensorMesh': 2, 'Model': 5, 'Field': 4, 'Survey': 4, 'Simulation': 5, 'Nested': 3}[kind]
+        for rep in range(reps):
+            for mi in range(nm):
+                for fi, first in enumerate(H_FIRST):
+                    seed = rng.randint(0, 2 ** 31 - 1)
+                    variant = mi + fi + rep * 5
+                    f, n = history_case(_random.Random(seed), kind, first, mi, tmp, f"{tag}{kind}{rep}_{mi}_{fi}", variant)
+                    trips += n
+                    if f:
+                        f.update(case_seed=seed, first=first, mut_index=mi, variant=variant)
+                        fails.append(f)
+    return fails, trips
